@@ -233,3 +233,107 @@ theorem implL_exact (X : SchemaX) (o : VOpts) (cx : Cx) (hq : X.q.implicitInnerC
   exact h
 
 end LyModel.Valid
+
+namespace LyModel.Valid
+open LyModel LyModel.Tree
+
+/-! ## nothing left to create = every schema node in use has an instance -/
+
+theorem wantChoices_any (o : VOpts) (H : Nat → Bool) (sid : Nat) : ∀ (ks : List STree),
+    wantChoices o H sid ks = true ↔ ∃ k ∈ ks, wantChoice o H sid k = true := by
+  intro ks
+  induction ks with
+  | nil => rw [wantChoices]; simp
+  | cons k rest ih =>
+    rw [wantChoices_cons, Bool.or_eq_true, ih]
+    simp only [List.mem_cons, exists_eq_or_imp]
+
+theorem doneNodes_iff (o : VOpts) (H : Nat → Bool) (ks : List STree) :
+    doneNodes o H ks = true ↔ ∀ sid, wantNodes o ks sid = true → H sid = true := by
+  unfold doneNodes wantNodes
+  rw [List.all_eq_true]
+  constructor
+  · intro h sid hw
+    obtain ⟨k, hk, hk2⟩ := List.any_eq_true.1 hw
+    simp only [Bool.and_eq_true, beq_iff_eq] at hk2
+    have := h k hk
+    rw [hk2.1, hk2.2] at this
+    simpa using this
+  · intro h k hk
+    by_cases hw : wantsImplicit o k = true
+    · have := h k.sid (List.any_eq_true.2 ⟨k, hk, by simp [hw]⟩)
+      simp [this]
+    · have : wantsImplicit o k = false := by simpa using hw
+      simp [this]
+
+mutual
+theorem done_iff_want_T (o : VOpts) (H : Nat → Bool) : ∀ (t : STree),
+    (doneChoice o H t = true ↔ ∀ sid, wantChoice o H sid t = true → H sid = true) ∧
+    (doneCase o H t = true ↔ ∀ sid, wantCase o H sid t = true → H sid = true)
+  | .mk s i ks => by
+    have ihL := done_iff_want_L o H ks
+    constructor
+    · rw [doneChoice_sel]
+      split
+      · rename_i hc
+        simp only [wantChoice_sel, hc, if_true, Bool.false_eq_true, false_imp_iff, implies_true]
+      · rename_i hc
+        cases hsel : selCase i ks H with
+        | none =>
+          simp only [wantChoice_sel, hc, if_false, hsel, Bool.false_eq_true, false_imp_iff, implies_true]
+        | some c =>
+          simp only [wantChoice_sel, hc, hsel]
+          exact ihL.2 c (selCase_mem hsel)
+    · rw [doneCase]
+      simp only [Bool.and_eq_true, wantCase_mk, Bool.or_eq_true]
+      rw [ihL.1, doneNodes_iff]
+      constructor
+      · rintro ⟨h1, h2⟩ sid (h | h)
+        · exact h1 sid h
+        · exact h2 sid h
+      · intro h
+        exact ⟨fun sid hw => h sid (Or.inl hw), fun sid hw => h sid (Or.inr hw)⟩
+theorem done_iff_want_L (o : VOpts) (H : Nat → Bool) : ∀ (ks : List STree),
+    (doneChoices o H ks = true ↔ ∀ sid, wantChoices o H sid ks = true → H sid = true) ∧
+    (∀ c ∈ ks, (doneCase o H c = true ↔ ∀ sid, wantCase o H sid c = true → H sid = true))
+  | [] => by
+    constructor
+    · rw [doneChoices]
+      simp only [true_iff]
+      intro sid h
+      rw [wantChoices] at h
+      cases h
+    · intro c hc; cases hc
+  | k :: rest => by
+    have ihT := done_iff_want_T o H k
+    have ihL := done_iff_want_L o H rest
+    constructor
+    · rw [doneChoices]
+      simp only [Bool.and_eq_true, wantChoices_cons, Bool.or_eq_true]
+      rw [ihT.1, ihL.1]
+      constructor
+      · rintro ⟨h1, h2⟩ sid (h | h)
+        · exact h1 sid h
+        · exact h2 sid h
+      · intro h
+        exact ⟨fun sid hw => h sid (Or.inl hw), fun sid hw => h sid (Or.inr hw)⟩
+    · intro c hc
+      cases hc with
+      | head => exact ihT.2
+      | tail _ hc => exact ihL.2 c hc
+end
+
+/-- **`lyd_new_implicit` has nothing to do on a level iff every schema node in use has an instance** -/
+theorem implDoneX_iff (o : VOpts) (ks : List STree) (sibs : List DNode) :
+    implDoneX o ks sibs = true ↔ ∀ sid, wantL o (hasInst sibs) ks sid = true → hasInst sibs sid = true := by
+  unfold implDoneX wantL
+  simp only [Bool.and_eq_true, Bool.or_eq_true]
+  rw [(done_iff_want_L o (hasInst sibs) ks).1, doneNodes_iff]
+  constructor
+  · rintro ⟨h1, h2⟩ sid (h | h)
+    · exact h1 sid h
+    · exact h2 sid h
+  · intro h
+    exact ⟨fun sid hw => h sid (Or.inl hw), fun sid hw => h sid (Or.inr hw)⟩
+
+end LyModel.Valid
